@@ -680,3 +680,12 @@ func EntityPath(prefix, key string) string {
 	w.WriteString(key)
 	return w.Finalize()
 }
+
+// EveryKeyFailed is the outcome of a batch method in which no key succeeded: per-key errors only.
+func EveryKeyFailed(keys []string, status int32) Outcome {
+	o := Outcome{BatchErrors: map[string]*common.ErrorResponse{}}
+	for _, k := range keys {
+		o.BatchErrors[k] = &common.ErrorResponse{Status: restli.Int32Pointer(status), Message: restli.StringPointer("no " + k)}
+	}
+	return o
+}
